@@ -96,7 +96,8 @@ def run(ctx):
     for profile, n, length in pl["random"]:
         sp = ctx.path("client", "rand-%s.ndjson" % profile)
         tp = ctx.path("client", "rtrace-%s.ndjson" % profile)
-        ctx.run_driver(["client-gen", "--seed", ctx.seed, "--n", n, "--len", length, "--profile", profile, "--first", first, "--out", sp])
+        ctx.run_driver(["client-gen", "--seed", ctx.seed, "--n", n, "--len", length, "--profile", profile, "--first", first, "--out", sp]
+                       + (["--sweep"] if prop == "C08" and profile == "C08" else []))
         s2 = ctx.driver_json(["client-run", "--in", sp, "--out", tp, "--all", "--par", 256], timeout=3000)
         for k, v in s2["features"].items():
             feats[k] = feats.get(k, 0) + v
